@@ -495,6 +495,12 @@ func ruleRespMatch(c *RC) *RuleResult {
 							purged = true
 						}
 					}
+					// a wrapper that purges on each of its paths (the log names the direct callee only)
+					if !purged && strings.HasPrefix(ev, "fn:") {
+						if g := c.Prog.fn(strings.TrimPrefix(ev, "fn:")); g != nil && c.mustDo(g, evs) {
+							purged = true
+						}
+					}
 				}
 			}
 			if !purged {
@@ -1082,4 +1088,27 @@ func (c *RC) isViewParam(fn *FuncInfo, p *Term) bool {
 		}
 	}
 	return false
+}
+
+// mustDo: every way out of g (its context-free summary) has seen one of the events.
+func (c *RC) mustDo(g *FuncInfo, evs []string) bool {
+	if c.A.isPure(g) || c.A.higherOrder(g) {
+		return false
+	}
+	sum := c.A.summary(g, nil)
+	if sum == nil || len(sum.Classes) == 0 {
+		return false
+	}
+	for _, cl := range sum.Classes {
+		has := false
+		for _, e := range evs {
+			if cl.Events[e] {
+				has = true
+			}
+		}
+		if !has {
+			return false
+		}
+	}
+	return true
 }
